@@ -6,6 +6,7 @@
 #include <aws/common/thread.h>
 #include <aws/common/thread_scheduler.h>
 #include <aws/common/error.h>
+#include <aws/common/logging.h>
 
 #include <deque>
 #include <vector>
@@ -64,6 +65,10 @@ struct Ctx {
     uint32_t client_ref_mask = 0;
     int extra_refs[4] = {0, 0, 0, 0}; // per thread (0 = main): additional references acquired and not yet released
     int64_t create_fail_err = 0;
+    // an asynchronous logger: when the library logs on the scheduler thread, the logger may hand a (flush) task to the same scheduler
+    bool in_logger = false, setup_done = false;
+    int logger_budget = 0;
+    size_t logger_rr = 0;
 };
 static Ctx *g = nullptr;
 
@@ -180,6 +185,28 @@ void task_fn(struct aws_task *task, void *arg, enum aws_task_status status) {
                 do_schedule(c, t, b.arg2 == 0, (int)b.arg2);
             }
 }
+
+int ts_log(struct aws_logger *, enum aws_log_level, aws_log_subject_t, const char *, ...) {
+    Ctx *c = g;
+    if (!c || !sim::active() || !c->setup_done || c->in_logger || c->logger_budget <= 0 || sim::self() != c->sched_tid) return AWS_OP_SUCCESS;
+    c->in_logger = true;
+    for (size_t k = 0; k < c->tasks.size(); k++) {
+        TaskM &t = c->tasks[(c->logger_rr + k) % c->tasks.size()];
+        if (t.busy || t.peer) continue;
+        c->logger_rr += k + 1;
+        c->logger_budget--;
+        sim::probe("logger_scheduled_a_task_from_a_log_call_on_the_scheduler_thread");
+        do_schedule(*c, t, true, 0);
+        break;
+    }
+    c->in_logger = false;
+    return AWS_OP_SUCCESS;
+}
+enum aws_log_level ts_level(struct aws_logger *, aws_log_subject_t) { return AWS_LL_TRACE; }
+void ts_clean_up(struct aws_logger *) {}
+int ts_set_level(struct aws_logger *, enum aws_log_level) { return AWS_OP_SUCCESS; }
+struct aws_logger_vtable g_ts_vtable = {ts_log, ts_level, ts_clean_up, ts_set_level};
+struct aws_logger g_ts_logger = {&g_ts_vtable, nullptr, nullptr};
 
 void final_checks(Ctx &c, const char *who) {
     // every release call has returned: the one that dropped the last reference has therefore returned as well
@@ -300,6 +327,8 @@ RunInfo run(const sim::Plan &plan) {
     int main_release_mode = (int)plan.get("main_release_mode", 0);
 
     sim::begin(plan);
+    c.logger_budget = (int)plan.get("logger_tasks", 0);
+    aws_logger_set(c.logger_budget > 0 ? &g_ts_logger : nullptr);
     double pf = (double)plan.get("p_pushfail", 0) / 1000000.0;
     if (pf > 0) sim::set_pushref_mode(1, pf);
     struct aws_thread_options opts = *aws_default_thread_options();
@@ -330,6 +359,7 @@ RunInfo run(const sim::Plan &plan) {
         if (!c.peer) sim::violation("c08:ctor", "second aws_thread_scheduler_new returned NULL without an injected failure");
         sim::probe("two_schedulers_alive");
     }
+    c.setup_done = true; // both schedulers exist: task functions (and the logger) may use them
     c.total_refs = 1;
     struct aws_thread cth[3];
     ClientArg cargs[3];
@@ -415,6 +445,7 @@ RunInfo run(const sim::Plan &plan) {
     for (auto &t : c.tasks)
         if (t.invocations && t.inv_seq > (t.peer ? c.peer_final_seq : c.final_seq)) sim::violation("c08:invoked-after-release", "task %d was invoked after the final release returned", t.id);
     if (sim::mutex_held_any()) sim::violation("c08:lock-held", "a mutex is still locked at the end of the run");
+    aws_logger_set(nullptr);
     simalloc::expect_balanced("after final release");
     RunInfo ri;
     ri.st = sim::end();
@@ -451,6 +482,7 @@ void gen(uint64_t seed, int tier, sim::Plan &p) {
     bool allow_parked = r.chance(0.1);
     bool scale = nclients > 0 && r.chance(tier ? 0.03 : 0.015);
     if (scale) { nt = (int)r.range(100, 250); p.cfg["ntasks"] = nt; }
+    if (r.chance(0.2)) p.cfg["logger_tasks"] = r.range(1, 8); // a logger that schedules tasks from log calls made on the scheduler thread
     // a quarter of the plans run a second scheduler next to the first; the last tasks of the pool belong to it
     if (nt >= 2 && r.chance(0.25)) {
         p.cfg["peer_tasks"] = r.range(1, nt / 2);
